@@ -166,6 +166,77 @@ def check_ancestors(g: GSpec, v, s):
     return rec
 
 
+def def_minimize(g: GSpec, v, s):
+    """||Y_x||: keep the subscripts whose variable is an ancestor of Y in G with edges INTO X removed."""
+    X = {n for n, _ in s}
+    anc = g.ancestors([v], removed_in=X)
+    return (v, tuple(sorted((n, x) for n, x in s if n in anc)))
+
+
+def def42_components(g: GSpec, roots, conds):
+    """Correa et al. 2022, Def. 4.2: the ancestral sets An(W_t) in G with edges OUT of X*(W_t) removed, X*(W_t) =
+    the (minimised) conditioned variables among the ancestors of W_t; sets are put together when they share a
+    vertex or a bidirected edge of G joins a vertex of one with a vertex of the other (transitively)."""
+    mconds = {def_minimize(g, v, s) for v, s in conds}
+    sets = []
+    for v, s in roots:
+        cut = {w for (w, z) in (mconds & def21_ancestors(g, v, s))}
+        g2 = GSpec(g.nodes, tuple(e for e in g.di if e[0] not in cut), g.bi)
+        sets.append(frozenset(def21_ancestors(g2, v, s)))
+    sets = list(dict.fromkeys(sets))
+    parent = list(range(len(sets)))
+
+    def find(i):
+        while parent[i] != i:
+            i = parent[i]
+        return i
+
+    base = [{w for w, _ in st} for st in sets]
+    for i, j in itt.combinations(range(len(sets)), 2):
+        linked = bool(base[i] & base[j]) or any((a in base[i] and b in base[j]) or (a in base[j] and b in base[i]) for a, b in g.bi)
+        if linked:
+            parent[find(i)] = find(j)
+    comps = {}
+    for i, st in enumerate(sets):
+        comps.setdefault(find(i), set()).update(st)
+    return {frozenset(c) for c in comps.values()}
+
+
+def check_components(g: GSpec, roots, conds):
+    from y0.algorithm.counterfactual_transport.ancestor_utils import get_ancestral_components
+    from y0.dsl import CounterfactualVariable
+
+    fmt = lambda vs: "{" + ", ".join(f"{v}[{','.join(f'{n}={x}' for n, x in s)}]" for v, s in vs) + "}"
+    rec = {"kind": "components", "input": f"W*={fmt(roots)} X*={fmt(conds)}"}
+    try:
+        res = get_ancestral_components(conditioned_variables={y0_var(v, s) for v, s in conds}, root_variables={y0_var(v, s) for v, s in roots}, graph=g.to_nx())
+    except Exception as e:  # noqa: BLE001
+        rec.update(status="crash", exc=f"{type(e).__name__}: {short(e, 100)}")
+        return rec
+    conv = lambda w: (w.name, tuple(sorted((i.name, 1 if i.star else 0) for i in w.interventions)) if isinstance(w, CounterfactualVariable) else ())
+    got = {frozenset(conv(w) for w in comp) for comp in res}
+    want = def42_components(g, roots, conds)
+    show = lambda cs: str(sorted(sorted(c) for c in cs))
+    rec.update(status="ok" if got == want else "differs", out=show(got), want=show(want))
+    return rec
+
+
+def component_inputs(nodes, stride=1, offset=0):
+    """(W*, X*) with X* a subset of W*: 1-3 root variables with <=1 subscript each."""
+    keys = atom_keys(nodes, 1)
+    i = 0
+    for k in (1, 2, 3):
+        for roots in itt.combinations(keys, k):
+            if len({v for v, _ in roots}) < k:
+                continue  # one world per variable
+            for m in range(k + 1):
+                for conds in itt.combinations(roots, m):
+                    i += 1
+                    if k == 3 and i % stride != offset % stride:
+                        continue
+                    yield roots, conds
+
+
 def check_factorization(g: GSpec, model: SymL3, den: Denoter, ev, timeout_ms):
     from y0.algorithm.counterfactual_transport.api import do_counterfactual_factor_factorization
 
@@ -230,6 +301,11 @@ def work(job):
             r2 = check_ancestors(g, v, s)
             r2["q"] = [v, [list(p) for p in s]]
             res.append(r2)
+    elif mode == "components":
+        for roots, conds in payload:
+            r = check_components(g, roots, conds)
+            r["q"] = [[[v, [list(p) for p in s_]] for v, s_ in roots], [[v, [list(p) for p in s_]] for v, s_ in conds]]
+            res.append(r)
     elif mode == "simplify":
         for ev in payload:
             r = check_simplify(g, b, ev)
@@ -282,11 +358,13 @@ def jobs_for(t):
     for g in fams:
         add(g, "minimize", atom_keys(g.nodes, 3 if len(g.nodes) <= 3 else 2))
         add(g, "simplify", events_with_repeats(g.nodes, 1, stride=(16 if t == "quick" else 2), offset=seed()))
+        add(g, "components", component_inputs(g.nodes, stride=(8 if t == "quick" else 1), offset=seed()))
         if len(g.nodes) >= 2:
             add(g, "factorize", nonreflexive(events(g.nodes, 2, 1, stride=1)))
     four = [g for i, g in enumerate(family(4, labellings=("fwd",), n_min=4)) if i % (16 if t == "quick" else 2) == seed() % (16 if t == "quick" else 2)]
     for g in four:
         add(g, "minimize", atom_keys(g.nodes, 2))
+        add(g, "components", component_inputs(g.nodes, stride=(64 if t == "quick" else 8), offset=seed()))
         if max(len(g.parents(n)) for n in g.nodes) <= 2:
             add(g, "factorize", nonreflexive(events(g.nodes, 1, 1)))
     for name in ("fig9", "frontdoor", "napkin", "verma"):
@@ -301,12 +379,13 @@ def run() -> int:
     t = tier()
     rep = Report(PROP, "translation_validation")
     rep.functions = [
-        "y0.algorithm.counterfactual_transport.ancestor_utils.minimize_counterfactual, get_ancestors_of_counterfactual (run natively)",
+        "y0.algorithm.counterfactual_transport.ancestor_utils.minimize_counterfactual, get_ancestors_of_counterfactual, get_ancestral_components (run natively)",
         "y0.algorithm.counterfactual_transport.api.simplify (Algorithm 1) and helpers, minimize_event, do_counterfactual_factor_factorization, convert_to_counterfactual_factor_form, get_counterfactual_factors (run natively)",
         "Boolean L3: unit-level structural functions as symbolic truth tables (vf/sem/bool3.py); SymL3 response-type models for the factorisation (vf/sem/l3.py)",
     ]
     rep.bounds = {
         "graphs": "ADMGs <=3 nodes exhaustive (quick: one labelling), a slice of the 4-node classes (quick 1/16, thorough 1/2), curated fig. 9 / front-door / napkin / Verma",
+        "components": "W* of 1-3 variables with <=1 subscript each (one world per variable), every X* subset of W* (3-variable W*: a stride)",
         "minimize": "every (Y, subscript set) with <=2-3 subscripted variables, all polarities, reflexive subscripts included",
         "simplify": "events of <=3 atoms, subscripts <=1, repeated variables with equal or conflicting values included (3-atom events: a stride)",
         "factorize": "queries of <=2 atoms, subscripts <=1, without reflexive atoms (the factorisation is applied to outputs of SIMPLIFY)",
@@ -315,7 +394,7 @@ def run() -> int:
     rep.assumptions = [
         "'same random variable in every model' = equal value for every tuple of unit-level response functions (binary variables); 'same probability in every model' for two events over the same units = the same set of units (both decided by SAT)",
         "factorisation: the returned expression is read with the returned event's values for unmarked variables and literal subscripts unless Sum-bound (DESIGN §2); the alternative reading in which a '-V' subscript takes the event's value of V is evaluated as well and used only to attribute a violation to the known '+ value printed as -' finding",
-        "ancestor sets are compared with a transcription of Definition 2.1 (assertion on each output, not solver-decided); ancestral components (Def. 4.2) are not checked in this version",
+        "ancestor sets are compared with a transcription of Definition 2.1 and ancestral components with a transcription of Definition 4.2 (assertions on each output, NOT solver-decided: the code builds sets of frozensets of computed counterfactual variables, which the relational interpreter does not represent); 'not disjoint' in Def. 4.2 is read at the level of graph vertices, as the implementation documents",
     ]
     rep.rule = "cases = one call of minimize_counterfactual / get_ancestors_of_counterfactual / simplify / do_counterfactual_factor_factorization; non-trivial = the function changed its input (dropped a subscript, removed or merged atoms) or produced a sum-product that the solver compared"
     for job, st, res in pmap(work, jobs_for(t)):
@@ -333,7 +412,7 @@ def run() -> int:
                 rep.add_violation(Violation(PROP, [key, f"crash:{r['kind']}:{r['exc'].split(':')[0]}"], f"{key} raised {r['exc']}", dict(base, kind="crash", exc=r["exc"])))
                 continue
             if st_ in ("malformed", "differs"):
-                rep.add_violation(Violation(PROP, [key], f"{key} returned {short(r.get('out'), 160)}" + (f", Definition 2.1 gives {short(r.get('want'), 160)}" if st_ == "differs" else " (not a well-formed variable/event)"), dict(base, kind=st_, out=r.get("out"))))
+                rep.add_violation(Violation(PROP, [key], f"{key} returned {short(r.get('out'), 160)}" + (f", Definition {'4.2' if r['kind'] == 'components' else '2.1'} gives {short(r.get('want'), 160)}" if st_ == "differs" else " (not a well-formed variable/event)"), dict(base, kind=st_, out=r.get("out"))))
                 continue
             if st_ in ("ok", "skip"):
                 continue
@@ -381,7 +460,10 @@ def replay(payload: dict) -> int:
     g = GSpec.from_json(payload["graph"])
     call, q = payload["call"], payload["q"]
     b = BoolL3(g)
-    if call in ("minimize", "ancestors"):
+    if call == "components":
+        conv = lambda xs: tuple((v, tuple(tuple(p) for p in s_)) for v, s_ in xs)
+        r = check_components(g, conv(q[0]), conv(q[1]))
+    elif call in ("minimize", "ancestors"):
         v, s = q[0], tuple(tuple(p) for p in q[1])
         r = check_minimize(g, b, v, s) if call == "minimize" else check_ancestors(g, v, s)
     elif call == "simplify":
